@@ -47,6 +47,8 @@ type Thread struct {
 	Observer bool
 	Steps    int
 	desc     string
+	entry    string
+	parent   uint64
 }
 
 type Sched struct {
@@ -61,6 +63,7 @@ type Sched struct {
 	Violations []string
 	spawned    map[string]int
 	parents    map[uint64]uint64
+	unnamed    []*Thread
 }
 
 // parentOf is called with s.mu held by the goroutine g itself.
@@ -157,7 +160,9 @@ func Tag(name string) {
 	s.mu.Lock()
 	if t := s.threads[g]; t != nil {
 		if t.Name != name {
-			delete(s.byName, t.Name)
+			if t.Name != "" {
+				delete(s.byName, t.Name)
+			}
 			t.Name = s.uniqueName(name)
 			s.byName[t.Name] = t
 		}
@@ -215,23 +220,47 @@ func parentGoid() uint64 {
 func (s *Sched) thread(g uint64) *Thread {
 	t := s.threads[g]
 	if t == nil {
-		name, ok := s.tags[g]
-		if !ok {
+		t = &Thread{gid: g, gate: make(chan struct{}), Observer: s.observe[g]}
+		if name, ok := s.tags[g]; ok {
+			t.Name = s.uniqueName(name)
+			s.byName[t.Name] = t
+		} else {
 			// Untagged goroutines are named after their entry function, qualified by the thread that
-			// spawned them and the ordinal of that spawn: program order within the parent, hence the
-			// same in every run of a schedule (arrival order at the first Point is not).
-			name = entryFunc()
-			if pt := s.threads[s.parentOf(g)]; pt != nil {
-				k := s.spawned[pt.Name+"|"+name]
-				s.spawned[pt.Name+"|"+name] = k + 1
-				name = fmt.Sprintf("%s<%s/%d>", name, pt.Name, k)
-			}
+			// spawned them and the ordinal of that spawn. The name is assigned by the explorer at the
+			// next quiescent state (nameNew), in goroutine-id order: with GOMAXPROCS=1 ids are handed
+			// out in spawn order, so siblings spawned in one step get the same names in every run.
+			t.entry = entryFunc()
+			t.parent = s.parentOf(g)
+			s.unnamed = append(s.unnamed, t)
 		}
-		t = &Thread{Name: s.uniqueName(name), gid: g, gate: make(chan struct{}), Observer: s.observe[g]}
 		s.threads[g] = t
-		s.byName[t.Name] = t
 	}
 	return t
+}
+
+// nameNew names the threads that appeared since the last quiescent state (called under s.mu).
+func (s *Sched) nameNew() {
+	if len(s.unnamed) == 0 {
+		return
+	}
+	sort.Slice(s.unnamed, func(i, j int) bool { return s.unnamed[i].gid < s.unnamed[j].gid })
+	for _, t := range s.unnamed {
+		if t.Name != "" {
+			continue // tagged in the meantime
+		}
+		name := t.entry
+		if pt := s.threads[t.parent]; pt != nil && pt.Name != "" {
+			k := s.spawned[pt.Name+"|"+name]
+			s.spawned[pt.Name+"|"+name] = k + 1
+			name = fmt.Sprintf("%s<%s/%d>", name, pt.Name, k)
+		}
+		t.Name = s.uniqueName(name)
+		s.byName[t.Name] = t
+		if t.Parked {
+			t.desc = t.Name + "@" + t.Kind + "(" + t.Site + ")"
+		}
+	}
+	s.unnamed = s.unnamed[:0]
 }
 
 func (s *Sched) park(kind string, ls *LockState, read bool) {
@@ -329,6 +358,7 @@ func enabledLocked(t *Thread) bool {
 func (s *Sched) Snapshot() (enabled, blocked []*Thread) {
 	s.mu.Lock()
 	defer s.mu.Unlock()
+	s.nameNew()
 	for _, t := range s.threads {
 		if !t.Parked {
 			continue
@@ -348,6 +378,7 @@ func (s *Sched) Snapshot() (enabled, blocked []*Thread) {
 func (s *Sched) All() (out []*Thread) {
 	s.mu.Lock()
 	defer s.mu.Unlock()
+	s.nameNew()
 	for _, t := range s.threads {
 		out = append(out, t)
 	}
